@@ -93,6 +93,61 @@ def fit_level(ck, lf):
             # model tie on the corrupted input
             cases.append(coq_case(cor, iterative, c1, e1))
             meta.append((cor, iterative, c1, e1))
+        # --- with clipping: zero-weight sources at good, moderately wrong or absurd positions are never tested,
+        #     never (re-)admitted and leave every clipping decision unchanged
+        if pr.get('noise'):
+            unit = 2.0 ** pr.get('log2scale', 0)
+            mod = dict(pr)
+            mod['xy'] = [list(p) for p in pr['xy']]
+            for k in Z:
+                d = unit * rng.choice([2.0 ** -12, 2.0 ** -9, 0.125, 0.5])
+                mod['xy'][k] = [pr['xy'][k][0] + d, pr['xy'][k][1] - d]
+            for accum in (False, True):
+                kw = dict(nclip=3, sigma=rng.choice([(3.0, 'rmse'), (2.0, 'rmse'), (2.5, 'mae'), (2.0, 'std')]),
+                          clip_accum=accum)
+                outs = {}
+                for name, p_ in (('orig', pr), ('moderate', mod), ('corrupt', cor), ('drop', drop)):
+                    try:
+                        f_ = lf.iter_linear_fit(np.array(p_['xy'], dtype=float).reshape(-1, 2),
+                                                np.array(p_['uv'], dtype=float).reshape(-1, 2),
+                                                None if p_['wxy'] is None else np.array(p_['wxy'], dtype=float),
+                                                None if p_['wuv'] is None else np.array(p_['wuv'], dtype=float),
+                                                fitgeom=geom, **kw)
+                        outs[name] = (0, effective(f_, True), f_)
+                    except (lf.NotEnoughPointsError, lf.SingularMatrixError, ValueError) as e:
+                        outs[name] = (type(e).__name__, [], None)
+                ck.search_evaluations += 1
+                ck.count('clipping_stream', 'clip_accum=%s' % accum)
+                rp = {'kind': 'zero-weight-sources-influence-clipping', 'geom': geom, 'call': 'iter_linear_fit(..., %r)' % kw,
+                      'original': slim(pr), 'zero_weight_positions': Z,
+                      'variants': 'orig / zero-weight xy moved by a fraction of the unit / zero-weight set to +-2^40 / '
+                                  'zero-weight pairs removed'}
+                codes = [outs[k_][0] for k_ in ('orig', 'moderate', 'corrupt', 'drop')]
+                if len(set(codes)) != 1:
+                    rp['detail'] = 'outcomes differ: %s' % codes
+                    ck.violation(rp)
+                    continue
+                if codes[0] != 0:
+                    continue
+                f0 = outs['orig'][2]
+                okc = True
+                keepidx = [k for k in range(pr['n']) if k not in Z]
+                for name in ('moderate', 'corrupt', 'drop'):
+                    fk = outs[name][2]
+                    okc = okc and close(outs['orig'][1], outs[name][1], 1e-9) and f0['eff_nclip'] == fk['eff_nclip']
+                    okc = okc and close(f0['rmse'], fk['rmse'], 1e-9) and close(f0['mae'], fk['mae'], 1e-9)
+                    mk = np.asarray(fk['fitmask'])
+                    if name == 'drop':
+                        okc = okc and np.array_equal(np.asarray(f0['fitmask'])[keepidx], mk)
+                    else:
+                        okc = okc and np.array_equal(np.asarray(f0['fitmask']), mk) and not mk[Z].any()
+                okc = okc and not np.asarray(f0['fitmask'])[Z].any()
+                ck.case(('clip', pr['xy'], pr['uv'], pr['wxy'], pr['wuv'], repr(kw)), len(Z) > 0 and f0['eff_nclip'] > 0)
+                if not okc:
+                    rp['detail'] = {name: {'effective': [float(v) for v in outs[name][1]], 'eff_nclip': outs[name][2]['eff_nclip'],
+                                           'fitmask': [bool(v) for v in outs[name][2]['fitmask']]}
+                                    for name in ('orig', 'moderate', 'corrupt', 'drop')}
+                    ck.violation(rp)
         # harmonic law: both weights == single combined weight
         if wmode == 'both' and not neg:
             ck.search_evaluations += 1
@@ -204,6 +259,113 @@ def align_level(ck):
                       'pairs(ref_tp, image_tp, w_ref, w_im)': slim(pr)})
 
 
+def expand_level(ck):
+    """weights through a growing reference catalog: two weighted images (two groups), weighted reference catalog that
+    holds only part of the sources, align_wcs(expand_refcat=True): the second image is matched to original reference
+    rows (reference weights) and to rows appended from the first image (which carry the first image's weights); its
+    reported fit must be the exact weighted fit of these true pairs with 1/w = 1/w_image + 1/w_reference."""
+    from astropy.table import Table
+    from tweakwcs import FITSWCSCorrector, align_wcs
+    rng = ck.rng
+    nprng = np.random.default_rng(rng.randrange(2 ** 31))
+    cases, meta = [], []
+    for t in range(ck.n(12, 150)):
+        geom = ['shift', 'rscale', 'general', 'rshift'][t % 4]
+        ra, dec = A.separated_sources(nprng, 120, 0.012, 14e-5)
+        nsrc = len(ra)
+        inref = nprng.random(nsrc) < 0.4
+        wref = nprng.choice([0.0, 0.25, 0.5, 1.0, 2.0, 3.0], nsrc)
+        tp = FITSWCSCorrector(A.mkwcs(crval=(82.0, 12.0), rot=nprng.uniform(0, 360), scale=1.1e-5))
+        cors, truth = [], []
+        for k in range(2):
+            crv = (82.0 + 0.002 * k, 12.0 + 0.0015 * k)
+            rot = 25.0 * k + nprng.uniform(0, 5)
+            wt = A.mkwcs(crval=crv, rot=rot)
+            x, y, sid = A.observe(wt, ra, dec)
+            perm = nprng.permutation(len(x))
+            x, y, sid = x[perm], y[perm], sid[perm]
+            wg = A.mkwcs(crval=(crv[0] + 1.5e-5, crv[1] - 1e-5 * (k + 1)), rot=rot + 0.01)
+            wim = nprng.choice([0.0, 0.25, 0.5, 1.0, 2.0, 3.0], len(x))
+            wim[:4] = [1.0, 2.0, 0.5, 1.0][:len(x)]
+            cat = Table([x, y, wim], names=('x', 'y', 'weight'))
+            cors.append(FITSWCSCorrector(wg, meta={'catalog': cat, 'name': 'im%d' % k}))
+            truth.append((x, y, sid, wim))
+        ref_sid = np.nonzero(inref)[0]
+        refcat = Table([ra[inref], dec[inref], wref[inref]], names=('RA', 'DEC', 'weight'))
+        cB0 = cors[1].copy()
+        inref_set = set(int(v) for v in ref_sid)
+        nposA = sum(1 for j in range(len(truth[0][0])) if int(truth[0][2][j]) in inref_set and truth[0][3][j] > 0 and
+                    wref[truth[0][2][j]] > 0)
+        if nposA < 4:
+            ck.discard('expand stream: first image has < 4 positively weighted reference pairs')
+            continue
+        ck.search_evaluations += 1
+        try:
+            out = align_wcs(cors, refcat=refcat, ref_tpwcs=tp, fitgeom=geom, nclip=0, minobj=3,
+                            match=A.oracle_matcher(3.0, seed=t), expand_refcat=True, enforce_user_order=True)
+        except Exception as e:   # noqa
+            ck.violation({'kind': 'align_wcs-raised', 'error': repr(e), 'geom': geom, 'stream': 'expand_refcat'})
+            continue
+        st = [c.meta['fit_info']['status'] for c in cors]
+        if st[0] != 'SUCCESS':
+            ck.violation({'kind': 'align_wcs-did-not-succeed', 'status': st, 'geom': geom, 'stream': 'expand_refcat'})
+            continue
+        # rows appended from the first image, identified by their sky position
+        n0 = len(ref_sid)
+        xA, yA, sidA, wA = truth[0]
+        raA, decA = cors[0].det_to_world(xA, yA)
+        refpos = {int(s): (float(ra[s]), float(dec[s]), float(wref[s])) for s in ref_sid}
+        napp = 0
+        for r in range(n0, len(out)):
+            d = np.hypot((raA - float(out['RA'][r])) * np.cos(np.deg2rad(12.0)), decA - float(out['DEC'][r]))
+            j = int(np.argmin(d))
+            if d[j] < 2e-6 and int(sidA[j]) not in refpos:      # 0.2 px
+                refpos[int(sidA[j])] = (float(out['RA'][r]), float(out['DEC'][r]), float(wA[j]))
+                napp += 1
+        xB, yB, sidB, wB = truth[1]
+        sel = [j for j in range(len(xB)) if int(sidB[j]) in refpos]
+        n_app_pairs = sum(1 for j in sel if int(sidB[j]) not in set(int(s) for s in ref_sid))
+        if n_app_pairs < 3:
+            ck.discard('expand stream: second image sees < 3 sources appended from the first')
+            continue
+        rr = np.array([refpos[int(sidB[j])] for j in sel])
+        rx, ry = tp.world_to_tanp(rr[:, 0], rr[:, 1])
+        ira, idec = cB0.det_to_world(xB[sel], yB[sel])
+        ix, iy = tp.world_to_tanp(ira, idec)
+        pr = {'geom': geom, 'xy': [[float(a), float(c)] for a, c in zip(rx, ry)],
+              'uv': [[float(a), float(c)] for a, c in zip(ix, iy)], 'wxy': [float(v) for v in rr[:, 2]],
+              'wuv': [float(wB[j]) for j in sel], 'n': len(sel)}
+        npos = sum(1 for k in range(pr['n']) if pr['wxy'][k] > 0 and pr['wuv'][k] > 0)
+        if npos < 4:
+            ck.discard('expand stream: second image has < 4 positively weighted pairs')
+            continue
+        if st[1] != 'SUCCESS':
+            ck.violation({'kind': 'align_wcs-did-not-succeed', 'status': st, 'geom': geom, 'stream': 'expand_refcat',
+                          'positively_weighted_true_pairs_of_second_image': npos, 'of_which_with_appended_rows': n_app_pairs})
+            continue
+        fi = cors[1].meta['fit_info']
+        m, s = np.asarray(fi['matrix']), np.asarray(fi['shift'])
+        eff = [m[0, 0], m[0, 1], m[1, 0], m[1, 1], s[0], s[1]]
+        ck.count('expand_stream_pairs_with_appended_rows', min(n_app_pairs, 20) // 5 * 5)
+        ck.case(('expand', t, geom), True)
+        if int(np.sum(fi['fitmask'])) != npos:
+            ck.violation({'kind': 'fitmask-count-differs-from-number-of-positively-weighted-true-pairs',
+                          'stream': 'expand_refcat (second image; reference rows appended from the first carry its weights)',
+                          'fitmask_sum': int(np.sum(fi['fitmask'])), 'expected': npos, 'geom': geom,
+                          'pairs_with_appended_rows': n_app_pairs})
+            continue
+        cases.append(coq_case(pr, True, 0, eff))
+        meta.append((pr, geom, n_app_pairs, eff))
+    bad = ck.coq_agree('expand_weights', ['GJModel', 'LSQ', 'LinearFit', 'C06Corr'], 'case06', 'agree06', cases,
+                       show='show06', shard=ck.n(6, 20))
+    for i in bad:
+        pr, geom, nap, eff = meta[i]
+        ck.violation({'kind': 'align_wcs-fit-differs-from-exact-fit-of-true-pairs-with-true-weights',
+                      'stream': 'expand_refcat (second image)', 'fitgeom': geom, 'pairs_with_appended_rows': nap,
+                      'impl [m00,m01,m10,m11,s0,s1]': [float(v) for v in eff], 'model': ck.last_shown.get(i, 'n/a'),
+                      'pairs(ref_tp, image_tp, w_ref, w_im)': slim(pr)})
+
+
 def run(ck):
     implementation()
     from tweakwcs import linearfit as lf
@@ -214,12 +376,17 @@ def run(ck):
                'model in Coq; harmonic law vs a single combined weight. Alignment level: 1..3 FITS images per group '
                'with weight columns in image and/or reference catalogs, scripted ground-truth matcher returning '
                'shuffled indices; the reported fit is compared in Coq with the exact model fit of the true pairs '
-               'with the true weights. Non-trivial: fit returned and at least one zero-weight source / any '
+               'with the true weights. Clipping stream: the same variants (plus zero-weight sources moved by a fraction of '
+               'the unit) through iter_linear_fit with nclip=3, clip_accum on/off: parameters, statistics, eff_nclip and '
+               'fitmask must agree. Expand stream: two weighted images and a partial weighted reference catalog through '
+               'align_wcs(expand_refcat=True); the second image\'s fit is compared in Coq with the exact weighted fit of its '
+               'true pairs (rows appended from the first image carry that image\'s weights). Non-trivial: fit returned and at least one zero-weight source / any '
                'alignment case; distinct by content.')
     ck.notes += ['tangent-plane coordinates of the expected pairs are computed through the public transforms '
                  '(det_to_world, world_to_tanp) of the same correctors', 'rounding outside the theorems']
     fit_level(ck, lf)
     align_level(ck)
+    expand_level(ck)
 
 
 def slim(pr):
